@@ -145,6 +145,9 @@ type Ref struct {
 	L      uint64
 	Stop   uint64
 	Blocks map[uint64]*RefBlock
+	// NoExecInfo: the package was not run by the native runtime, so there is no record of which module
+	// executed on which block nor of store reads (compiled wasm packages under wazero)
+	NoExecInfo bool
 	// StoreAt returns content after block n-1 (i.e. "at block n" before executing it)
 }
 
